@@ -5,9 +5,9 @@ specifiers - rendered to source by CPython's own ast.unparse (so every generated
 independent of the printer under test)."""
 import ast
 
-TEXTS = ['', 'a', ' ', "'", '"', "'''", '"""', '\'"', '{', '}', '{}', '{{x}}', '\\', '\\n', '\n', '\r\n', '\t', 'café', '中', '\U0001f600', '#', 'x=', 'x = ', 'a:b', '!r', '%s', "it's", 'say "hi"',
+TEXTS = ['', '\r', '\x00', 'a\rb', 'a', ' ', "'", '"', "'''", '"""', '\'"', '{', '}', '{}', '{{x}}', '\\', '\\n', '\n', '\r\n', '\t', 'café', '中', '\U0001f600', '#', 'x=', 'x = ', 'a:b', '!r', '%s', "it's", 'say "hi"',
          '\\N{DASH}', 'a\\', "'\\", '\\x41', 'end\n', 'f"{x}"', '${v}', ':', '=', ';', '\x7f', '\x1b[0m']
-BYTES = [b'', b'a', b"'", b'"', b'\'"', b'\\', b'\n', b'{}', b'ab c', b'\t', b"'''", b'#']
+BYTES = [b'', b'\r', b'a\r\nb', b'\x00\xff', b'a', b"'", b'"', b'\'"', b'\\', b'\n', b'{}', b'ab c', b'\t', b"'''", b'#']
 NAMES = ['a', 'b', 'value', 'obj']
 
 
